@@ -389,6 +389,34 @@ def str_join(sep: str, parts: list) -> str:
     return sep.join(parts)
 
 
+@opaque
+def str_split(s: str, sep: str, maxsplit: int) -> list:
+    return s.split(sep, maxsplit)
+
+
+@opaque
+def str_rsplit(s: str, sep: str, maxsplit: int) -> list:
+    return s.rsplit(sep, maxsplit)
+
+
+@spec
+def ALL_STRS(xs: list, k: int) -> bool:
+    if k >= len(xs):
+        return True
+    return isinstance(xs[k], str) and ALL_STRS(xs, k + 1)
+
+
+@axiom("str_split")
+def ax_split_parts(s: str, sep: str, maxsplit: int) -> bool:
+    """str.split with a separator returns at least one part, all of them strings"""
+    return len(str_split(s, sep, maxsplit)) >= 1 and ALL_STRS(str_split(s, sep, maxsplit), 0)
+
+
+@axiom("str_rsplit")
+def ax_rsplit_parts(s: str, sep: str, maxsplit: int) -> bool:
+    return len(str_rsplit(s, sep, maxsplit)) >= 1 and ALL_STRS(str_rsplit(s, sep, maxsplit), 0)
+
+
 @spec
 def FLOATED(x: object) -> object:
     """float(x) as the record writer applies it to float/double fields, so that JSON
